@@ -927,6 +927,42 @@ func sweepForest(r *hv.Rand, class string, all []*hcert, perLeafRandom int, keep
 				runVerify(class+"/presented-store", query{store: st, presented: p, name: nameReq{zero: true}, cur: tb, leaf: leaf})
 			}
 		}
+		// 2b. trust anchors must come from the store: the leaf's intermediate is stored WITHOUT its root
+		// (orphan) and something from the whole forest -- in particular the genuine but untrusted root --
+		// is handed over in the presented-intermediate slot; also intermediate presented and root absent.
+		if im != nil {
+			var allButRoot, imsOnly []*hcert
+			for _, h := range all {
+				if h != root {
+					allButRoot = append(allButRoot, h)
+				}
+				if h.typ == 2 && h != root {
+					imsOnly = append(imsOnly, h)
+				}
+			}
+			orphanStores := [][]*hcert{{im}, {im, leaf}, append([]*hcert{im}, otherRoots...), imsOnly, notRoots, allButRoot}
+			for _, st := range orphanStores {
+				pres := []*hcert{root, nil}
+				for k := 0; k < 2; k++ {
+					pres = append(pres, hv.Pick(r, all)) // anything: other roots, leaves, the leaf itself, unrelated intermediates
+				}
+				for _, p := range pres {
+					if p == nil && !r.Chance(50) {
+						continue
+					}
+					runVerify(class+"/orphan-store-x-presented", query{store: st, presented: p, name: nameReq{zero: true}, cur: tb, leaf: leaf})
+				}
+			}
+			if root != nil {
+				// the untrusted root presented at the clock boundaries of the leaf, and with names
+				for _, t := range []time.Time{leaf.nb, leaf.na.Add(-1), root.nb, root.na.Add(-1)} {
+					runVerify(class+"/orphan-store-x-presented", query{store: []*hcert{im}, presented: root, name: nameReq{zero: true}, cur: t, leaf: leaf})
+				}
+				for _, n := range leaf.names {
+					runVerify(class+"/orphan-store-x-presented", query{store: imsOnly, presented: root, name: nameReq{n: n}, cur: tb, leaf: leaf})
+				}
+			}
+		}
 		// 3. requested names
 		for _, n := range nameVariants(leaf) {
 			runVerify(class+"/name", query{store: roots, presented: im, name: n, cur: tb, leaf: leaf})
@@ -940,6 +976,22 @@ func sweepForest(r *hv.Rand, class string, all []*hcert, perLeafRandom int, keep
 				}
 			}
 			p := hv.Pick(r, presChoices)
+			if r.Chance(50) {
+				p = hv.Pick(r, all)
+			}
+			if r.Chance(33) && root != nil {
+				// drop the chain's root from the subset, keep its intermediate
+				var st2 []*hcert
+				for _, h := range st {
+					if h != root && h != im {
+						st2 = append(st2, h)
+					}
+				}
+				st = st2
+				if im != nil {
+					st = append(st, im)
+				}
+			}
 			nv := nameVariants(leaf)
 			var t time.Time
 			if c := hv.Pick(r, []*hcert{leaf, im, root}); c != nil {
@@ -1767,7 +1819,7 @@ func main() {
 		}
 	}
 	// forests with wrong types, swapped parents, foreign signers, odd windows
-	nWild := hv.Scale(4, 16)
+	nWild := hv.Scale(3, 16)
 	for i := 0; i < nWild; i++ {
 		f := synthForest(r, fmt.Sprintf("w%d.", i), true)
 		all := hs(f)
